@@ -114,8 +114,27 @@ func (c c20) Run(ctx *core.Ctx) error {
 			cases = append(cases, core.J(c20Case{Kind: "file", Recs: recs, Comp: comp}))
 		}
 	}
+	// files that are still open: records appended with WriteSync, and the file is parsed after every append, before
+	// Close - what a reader of a live or abandoned log file sees (a synchronous append has written its record in full)
+	var recSync func(cur []int)
+	recSync = func(cur []int) {
+		if len(cur) > 0 {
+			for comp := 0; comp < 4; comp++ {
+				for _, wb := range []int{16, 4096} {
+					cases = append(cases, core.J(c20Case{Kind: "open", Recs: append([]int{}, cur...), Comp: comp, WBuf: wb}))
+				}
+			}
+		}
+		if len(cur) == 2 {
+			return
+		}
+		for i := 0; i < na; i++ {
+			recSync(append(cur, i))
+		}
+	}
+	recSync(nil)
 	cases = append(cases, core.J(c20Case{Kind: "enum"}))
-	ctx.Ev.Rule = "every record sequence up to the length bound over {nil, empty, a, 300 compressible bytes, marker-bearing, 40 zero bytes} (plus files with a 20000-byte and a 2100000-byte record: 3- and 4-group length encodings) x 4 compression types x write buffer {16, 4096} is written by the current writer and parsed with gokaitai.RecordioV4; record count, nil flags and stored payload bytes are compared with the byte layout the native reader uses; plus every writer program with Seek(to a surviving boundary) up to seek_programs_max_length; plus the compression enum of the schema and of the generated code against the writer constants. non-trivial = at least one record"
+	ctx.Ev.Rule = "every record sequence up to the length bound over {nil, empty, a, 300 compressible bytes, marker-bearing, 40 zero bytes} (plus files with a 20000-byte and a 2100000-byte record: 3- and 4-group length encodings) x 4 compression types x write buffer {16, 4096} is written by the current writer and parsed with gokaitai.RecordioV4; record count, nil flags and stored payload bytes are compared with the byte layout the native reader uses; plus every writer program with Seek(to a surviving boundary) up to seek_programs_max_length; plus every sequence of up to 2 records appended with WriteSync, parsed after every append while the writer is still open and again after Close; plus the compression enum of the schema and of the generated code against the writer constants. non-trivial = at least one record"
 	ctx.Ev.Bounds["max_records"] = maxLen
 	rs := ctx.Pmap(cases)
 	ctx.Fold(rs, cases)
@@ -142,6 +161,9 @@ func (c c20) Case(w *core.WCtx, payload json.RawMessage) core.Result {
 		return c.enumCase()
 	}
 	alpha := c20Alphabet()
+	if cs.Kind == "open" {
+		return c.openCase(w, cs, alpha)
+	}
 	var prog []wop
 	names := ""
 	for _, i := range cs.Recs {
@@ -241,6 +263,88 @@ func (c c20) Case(w *core.WCtx, payload json.RawMessage) core.Result {
 	if len(cs.Recs) == 3 && cs.Comp == 2 && cs.Recs[0] == 0 && cs.Recs[1] == 3 && cs.Recs[2] == 1 {
 		r.Sample = string(core.J(map[string]any{"records": names, "compression": "snappy", "file_bytes": len(data)}))
 	}
+	return r
+}
+
+// openCase appends the records with WriteSync and parses the file after every append while the writer is still open,
+// then once more after Close: the schema reader must see exactly the records appended so far.
+func (c c20) openCase(w *core.WCtx, cs c20Case, alpha []rioRec) core.Result {
+	var r core.Result
+	names := ""
+	for _, i := range cs.Recs {
+		names += alpha[i].Name + " "
+	}
+	viol := func(f string, a ...any) {
+		if len(r.Viol) < 4 {
+			r.Viol = append(r.Viol, core.Violation{Desc: fmt.Sprintf("open file [%s] comp=%s wbuf=%d: %s", names, writerCompressionNames[cs.Comp], cs.WBuf, fmt.Sprintf(f, a...))})
+		}
+	}
+	path := tmpFile(w.Dir(), "o.rio")
+	wr, err := recordio.NewFileWriter(recordio.Path(path), recordio.CompressionType(cs.Comp), recordio.BufferSizeBytes(cs.WBuf))
+	if err == nil {
+		err = wr.Open()
+	}
+	if err != nil {
+		viol("writer failed: %v", err)
+		return r
+	}
+	comp, _ := recordio.NewCompressorForType(cs.Comp)
+	check := func(when string, n int) {
+		defer func() {
+			if p := recover(); p != nil {
+				viol("%s: kaitai parser panicked: %v", when, p)
+			}
+		}()
+		data := readAll(path)
+		rio := gokaitai.NewRecordioV4()
+		r.Evals++
+		if err := rio.Read(kaitai.NewStream(bytes.NewReader(data)), nil, rio); err != nil {
+			viol("%s (%d bytes on disk): kaitai parse failed: %v", when, len(data), err)
+			return
+		}
+		if len(rio.Record) != n {
+			viol("%s: kaitai sees %d records, appended %d", when, len(rio.Record), n)
+			return
+		}
+		for i, kr := range rio.Record {
+			want := alpha[cs.Recs[i]].Data
+			r.Evals += 2
+			if (kr.RecordNil == 1) != (want == nil) {
+				viol("%s: record %d nil flag %d, written nil=%v", when, i, kr.RecordNil, want == nil)
+				continue
+			}
+			if want == nil {
+				continue
+			}
+			plain := kr.Payload
+			if comp != nil {
+				var derr error
+				if plain, derr = comp.Decompress(kr.Payload); derr != nil {
+					viol("%s: record %d: kaitai payload does not decompress: %v", when, i, derr)
+					continue
+				}
+			}
+			if !bytes.Equal(plain, want) {
+				viol("%s: record %d decodes to %s, written %s", when, i, recStr(plain), recStr(want))
+			}
+		}
+	}
+	for i, ai := range cs.Recs {
+		if _, err := wr.WriteSync(alpha[ai].Data); err != nil {
+			viol("WriteSync %d failed: %v", i, err)
+			wr.Close()
+			return r
+		}
+		r.Trans++
+		check(fmt.Sprintf("after synchronous append %d, writer open", i), i+1)
+	}
+	if err := wr.Close(); err != nil {
+		viol("Close failed: %v", err)
+	}
+	check("after Close", len(cs.Recs))
+	r.Traces++
+	r.Key = core.HashKey("open", names, fmt.Sprint(cs.Comp, cs.WBuf))
+	r.Outcome = fmt.Sprintf("open comp=%d n=%d ok=%v", cs.Comp, len(cs.Recs), len(r.Viol) == 0)
 	return r
 }
 
